@@ -91,6 +91,19 @@ CLAIMED = {
              'generators produce kernel-shaped records (quoted or hex values).',
         technique='Lean 4 proof (toggle-splitting lemmas, hex round trip) + differential run + event-level oracle',
         ref='8/C15'),
+    'C02': dict(
+        text='Lean 4 theorems for the two unbounded quantifiers: for ALL prior contents of the build directory, what lies under a '
+             'synchronised directory after RemoveAll+copy is the same (abstract file system); for ALL iteration orders of a Go map, '
+             'sorting the collected rules with a total preorder with identity gives the same list (the reference sort is proved '
+             'sorted and a permutation). Package-level state: histories of 2-5 generated profiles (appends to built-in tunables, '
+             'stack/exec/dbus directives) are processed in one process in two orders and compared with the profile alone; every '
+             'configuration of the tier is built twice from scratch and once over the leftovers of a different configuration plus '
+             'planted junk, all files and symlinks hashed.',
+        note='Trusted: Lean kernel; abstract FS (no permissions/errors); that no builder or directive writes package-level state is '
+             'established by the history runs on the real code (after the fix commit), not by a theorem about Go memory; file rules '
+             'with mixed known/unknown prefixes are outside the total-preorder hypothesis (C11 known class).',
+        technique='Lean 4 proof (abstract FS independence, sort permutation invariance) + history runs in-process + repeated real builds hashed',
+        ref='8/C02'),
 }
 
 REASON_TODO = 'check not built yet in this round; no claim is made (see DESIGN.md section 13)'
